@@ -578,8 +578,9 @@ def check(engine_name, prop, tier, base_seed, n_runs, budget_s, workers,
     extra = getattr(engine, "coverage_extra", None)
     if extra is not None:
         coverage.update(extra(results))
-    write_evidence(prop, tier, base_seed, level, coverage, total_wall,
-                   n_viol, assumptions)
+    if not os.environ.get("VERIF_NO_EVIDENCE"):
+        write_evidence(prop, tier, base_seed, level, coverage, total_wall,
+                       n_viol, assumptions)
     print(f"DONE property={prop} runs={n_eval} skipped={skipped} "
           f"distinct_nontrivial={len(nontrivial)} states={len(states)} "
           f"ops={n_ops} faults_fired={sum(faults.values())} "
